@@ -1,7 +1,7 @@
 SPEC = {
     "id": "C01",
     "props_file": "Props/C01.v",
-    "gen": ["muxsorts", "muxorder"],
+    "gen": ["muxsorts", "muxorder", "muxmapsites"],
     "streams": [
         {"name": "mux-c01", "cmd": "mux",
          "args": {"quick": ["-mode", "c01", "-blocks", "20", "-runs", "4", "-tieruns", "3", "-tieblocks", "14", "-procruns", "1", "-rtruns", "2", "-upgruns", "2"],
@@ -16,11 +16,13 @@ SPEC = {
         "the replica-vs-replica comparison in the harness (the property's own oracle): byte comparison of AppHash, per-tx code/codespace/data/gas/events, sorted validator updates, metadata body, begin/end events, full MKVS dumps",
         "harness/cmd/gen muxsorts (go/ast reader: is the sort of map-collected keys still an unconditional statement in RuntimesToFinalize, stakingAddressMapToSliceByStake, distributeRewards, sortAddresses, EligibleEntities) feeding map_order_irrelevant",
         "harness/cmd/gen muxorder (go/ast reader of the statement order in abciMux.BeginBlock/EndBlock: upgrade handlers before validateSystemTxs, after the apps' EndBlock) feeding exec_block / mux_step_order; muxdrv's mock upgrade backend (a preloaded consensus upgrade whose EndBlock migration bumps MaxTxSize like go/upgrade/migrations/dummy.go), identical on all replicas of a history",
+        "harness/cmd/gen muxmapsites (golang.org/x/tools/go/packages + go/types, offline): type-checked enumeration of every range over a map, maps.Keys/Values/All, time.Now, math/rand, crypto/rand, go/select statements, os.Getenv, viper/config/debug-flag reads in 56 packages executed during block processing; coq/Abci/mapsites_reviewed.json is the hand-reviewed classification (trusted: the review itself for the classes ErrorOnly / NotInExecPath / LocalOnly / Deterministic / UnsafeDebugFlag, and the claim that a site classified OrderInsensitive is an instance of the proved fold/per-key/test/arg-max lemmas)",
         "process-separated twins (re-exec of the harness binary per replica, JSON line protocol) for a subset of histories; thorough tier: the stream rebuilt with go build -race, data races inside oasis-core reported as findings",
         "vm_compute evaluation of Verif.Abci.Mux.run_case on the recorded cache decisions and dispatch orders (no extraction)",
         "modelled generically, not verified as code: the applications themselves (abstract deterministic functions in the theorems, real code in the harness), Go map iteration inside the apps, the MKVS (root = function of contents is C02), Badger, goroutine interleavings",
     ],
     "assumptions": [
+        "all replicas run with the same value of the process-wide unsafe debug flag debug.dont_blame_oasis (10 enumerated reads inside consensus-relevant code; documented as never to be set in production)",
         "the block delivered to the proposer carries the commit info it was given in PrepareProposal (isEqual, state.go:64-96, does not compare it); named hypothesis of cached_equals_reexecution, with a refutation witness for its absence",
         "application names are unique (mux.doRegister rejects duplicates) and the proposer signs the metadata tx with the consensus key named in the header (meta_wf)",
         "applications are deterministic functions of (block info, transaction, state): true of the model's abstract apps by typing; for the real apps it is what the four-way replica comparison tests",
@@ -30,7 +32,7 @@ SPEC = {
 MANIFEST = {
     "technique": "Coq proof over a generic model of the ABCI multiplexer (all paths refine one reference execution; lifted to histories by induction) + four-way differential execution of seeded block histories on the real multiplexer with all real apps (different paths, local configs, backends, restarts, concurrent CheckTx/EstimateGas/queries/pruner)",
     "level_text": "Theorems in coq/Props/C01.v hold for every instance of the generic multiplexer model (any state type, any deterministic applications, any decoder/auth handler): propose+cached, process-proposal, plain replay and restart-then-replay/process all equal the reference execution of the block on the committed state, also after arbitrary failed rounds that left a stale proposal cache (stale_rounds_harmless, up to a block-hash collision); outputs and committed state are equal for all local configurations and registration orders; lifted to arbitrary histories with interleaved CheckTx/simulation/pruning (replicas_agree) and with failed consensus rounds in between (replicas_agree_with_failed_rounds); the block functions that iterate Go maps (RuntimesToFinalize, stake-ordered election slice and cutoff, reward list, signing-eligible entities) are independent of the iteration order given the sort sites the generator reads from the source (map_order_irrelevant, lifted to blocks of a concrete ledger instance); the proposer cache equals re-execution under the named commit-info hypothesis (refuted without it); dispatch order is the sorted name order. The tie to the code for the property itself is the harness: per seed a 4-validator genesis (plus histories with a due consensus upgrade whose migration writes state in EndBlock, histories with two runtimes finalizing in the same block, and election-tie histories: 8 validator entities with EQUAL escrow, MaxValidators 3-4, no rewards, an election every 2 blocks, so stake ties straddle the cutoff at every election), blocks of 0-8 staking/governance/registry/beacon transactions (70 % valid), epoch transitions, vote patterns, duplicate-vote evidence, executed by FOUR real replicas on different paths/configs/backends with background CheckTx/EstimateGas/historical queries, compared after every height; the model is tied to the code on the proposal-cache reuse decisions (isEqual/needsExecution/resetProposalIfChanged) and the dispatch order observed through a read-only hook.",
-    "level_note": "For C01 the applications are abstract in the Coq theorems: determinism of the REAL apps (map iteration order, reward/fee arithmetic, elections) is established only empirically by the replica comparison on the explored histories, not proved. The correspondence stream covers the cache decisions and app ordering only. Real goroutine interleavings, Badger and the MKVS are exercised, not modelled. One standard and one election-tie history per quick run (two each in the thorough tier) additionally run every replica in its own OS process; the others are in-process (map iteration order still varies per map instance). map_order_irrelevant covers the listed sort sites only (found by reading the code, not by an exhaustive search for map iterations).",
+    "level_note": "For C01 the applications are abstract in the Coq theorems: determinism of the REAL apps (map iteration order, reward/fee arithmetic, elections) is established only empirically by the replica comparison on the explored histories, not proved. The correspondence stream covers the cache decisions and app ordering only. Real goroutine interleavings, Badger and the MKVS are exercised, not modelled. One standard and one election-tie history per quick run (two each in the thorough tier) additionally run every replica in its own OS process; the others are in-process (map iteration order still varies per map instance). The enumeration of map iterations is exhaustive for the listed packages (type-checked), but the link from a reviewed site to its generic lemma is by review, not by a model of that function; 10 sites read the process-wide unsafe flag debug.dont_blame_oasis inside consensus-relevant code (class UnsafeDebugFlag): replicas agree only if they agree on that flag (demonstrated by summary.extra.debug_flag_probe).",
 }
 
 
